@@ -153,6 +153,7 @@ class Program:
         self.literals = []       # (line, source text, class) of hostile string literals
         self.entry = f"main_{uid}"
         self.slot = None         # (line, source text, class) chosen for the metamorphic variant
+        self.defs = {}           # definition id -> construct that made it (static dependence: see Env.taint)
 
     @property
     def text(self):
@@ -171,7 +172,7 @@ class Program:
     def to_case(self):
         return {"uid": self.uid, "mode": self.mode, "text": self.text, "meta": {str(k): v for k, v in self.meta.items()},
                 "n_dec": self.n_dec, "probes": self.probes, "entry": self.entry, "literals": self.literals,
-                "slot": self.slot, "features": sorted(self.features)}
+                "slot": self.slot, "features": sorted(self.features), "defs": {str(k): v for k, v in self.defs.items()}}
 
     @staticmethod
     def from_case(c):
@@ -184,6 +185,7 @@ class Program:
         p.literals = [tuple(x) for x in c.get("literals", [])]
         p.slot = tuple(c["slot"]) if c.get("slot") else None
         p.features = set(c.get("features", []))
+        p.defs = {int(k): v for k, v in c.get("defs", {}).items()}
         return p
 
 
@@ -339,8 +341,9 @@ class Gen:
                 t |= env.taint.get(x, frozenset())
         return t
 
-    def new_def_id(self):
+    def new_def_id(self, tag="?"):
         self.ndef += 1
+        self.p.defs[self.ndef] = tag
         return self.ndef
 
     def member_taint(self, env, v, member):
@@ -349,14 +352,14 @@ class Gen:
             t |= env.ftaint.get((o, member), frozenset())
         return t
 
-    def write_member_taint(self, env, v, member, value_taint):
+    def write_member_taint(self, env, v, member, value_taint, tag="member-write"):
         pts = env.types[v][1]
-        t = value_taint | frozenset([self.new_def_id()])
+        t = value_taint | frozenset([self.new_def_id(tag)])
         for o in pts:
             env.ftaint[(o, member)] = t if len(pts) == 1 else (env.ftaint.get((o, member), frozenset()) | t)
 
     def define(self, env, var, typ, card, tag, srcs=()):
-        env.own[var] = frozenset([self.new_def_id()])
+        env.own[var] = frozenset([self.new_def_id(tag)])
         env.taint[var] = self.taint_of(env, *srcs) | env.own[var]
         overwritten = var in env.types
         env.types[var] = typ
@@ -759,7 +762,7 @@ class Gen:
             self.seq += 1
             for ob in pts:
                 env.hist.setdefault(ob, []).append(("f1", "%callee", self.seq))
-            self.write_member_taint(env, o, "f1", self.taint_of(env, a, o))
+            self.write_member_taint(env, o, "f1", self.taint_of(env, a, o), tag="callee-field-write")
             self.p.features.add("callee-field-write")
         elif k == "getf":
             vs = [w for w in self.inst_vars(env)
